@@ -12,7 +12,8 @@
 EXTENDS BFDOps, FiniteSets, TLC
 
 CONSTANTS Rel,        \* "rfc" | "code"
-          Budget      \* number of adversarial actions (lose / hold / inject)
+          Budget,     \* number of adversarial actions (lose / hold / inject)
+          Foreign     \* BOOLEAN: injected packets may also carry a My Discriminator nobody owns
 
 S == {"A", "B"}
 Peer(s) == IF s = "A" THEN "B" ELSE "A"
@@ -31,7 +32,7 @@ vars == <<st, rst, rd, net, sent, got, budget>>
 Packets == [to : S, state : States, my : 0..3, your : 0..3, held : BOOLEAN]
 \* what the adversary injects: any state; My Discriminator = the peer's, a foreign one or zero;
 \* Your Discriminator = zero or the receiver's (the sessions do not look at other values)
-InjPackets == {p \in Packets : /\ ~p.held /\ p.my \in {0, Disc(Peer(p.to)), 3}
+InjPackets == {p \in Packets : /\ ~p.held /\ p.my \in ({0, Disc(Peer(p.to))} \cup (IF Foreign THEN {3} ELSE {}))
                                 /\ p.your \in {0, Disc(p.to)}
                                 /\ (p.my = 0 => p.state = "Up" /\ p.your # 0)}   \* one discarded kind
 
